@@ -923,6 +923,23 @@ def value_attr(interp, obj, attr):
                     used("ndarray.astype(bool) (copy; entry -> 1 if non-zero else 0)")
                     rd_ = obj.reader()
                     return new_array(obj.shape, lambda *i: z3.If(as_int_term(rd_(*i)) != 0, z3.IntVal(1), z3.IntVal(0)), "asbool")
+                cp = k.get("copy", True)
+                if a or set(k) - {"copy"}:
+                    raise Undecided("ndarray.astype with order / casting / subok arguments")
+                if cp is False:
+                    # [A] numpy: astype(t, copy=False) returns the array ITSELF when the dtype already matches, a converted copy
+                    # otherwise.  Exact when the engine knows the dtype of the buffer (schema inputs); otherwise `maybe_alias`
+                    used("ndarray.astype(int, copy=False) (alias when the dtype matches)")
+                    want = getattr(typ, "name", None) or getattr(typ, "__name__", None) or str(typ)
+                    want = {"int": "int", "float": "float", "int64": "int", "float64": "float"}.get(want)
+                    have = getattr(obj.store, "dtype", None)
+                    if want is not None and have is not None:
+                        return obj if want == have else obj.snapshot()
+                    r = obj.snapshot()
+                    r.store.maybe_alias = True
+                    return r
+                if cp is not True:
+                    raise Undecided("ndarray.astype with a symbolic copy flag")
                 used("ndarray.astype(int) (copy; identity on integer-valued contents, S2)")
                 return obj.snapshot()
             return Builtin("astype", astype)
